@@ -38,6 +38,8 @@ Definition sweep_dep_keys : list string := [].
 Definition context_keys_sorted : bool := false.
 Definition enrich_on_copy : bool := false.
 Definition sem_includes_sweep : bool := false.
+Definition required_in_node_order : bool := false.
+Definition two_number_list_is_range : bool := false.
 Definition identity_translation_failed := true.
 """
 
@@ -196,6 +198,21 @@ def translate():
     else:
         raise TranslationError("compute_pipeline_semantic_id: unexpected use of preprocessor metadata")
 
+    # ---- facts owned by other properties that the identity model consumes
+    insp, p_insp = parse("semantiva/inspection/builder.py")
+    bpi = ast.unparse(find_def(insp, "build_pipeline_inspection", ast.FunctionDef))
+    if "required_context_keys = all_required_params - all_created_keys" in bpi:
+        node_order = False
+    elif "if name not in key_origin or name in deleted_keys" in bpi and "required_context_keys = set(all_required_params)" in bpi:
+        node_order = True
+    else:
+        raise TranslationError("build_pipeline_inspection: unknown computation of required_context_keys")
+    npp, p_npp = parse("semantiva/pipeline/node_preprocess.py")
+    cvs = ast.unparse(find_def(npp, "_convert_var_specs", ast.FunctionDef))
+    two_range = "len(spec) == 2 and all((isinstance(x, (int, float)) for x in spec))" in cvs
+    if not two_range and "if isinstance(spec, list):\n            processed[var] = SequenceSpec(spec)" not in cvs:
+        raise TranslationError("_convert_var_specs: unknown treatment of list specifications")
+
     p_orch = os.path.join(os.path.dirname(p_gb), "..", "execution", "orchestrator", "orchestrator.py")
     p_orch = os.path.normpath(p_orch)
     enrich_copy = probe_enrich_on_copy()
@@ -214,8 +231,10 @@ Definition sweep_dep_keys : list string := %s.
 Definition context_keys_sorted : bool := %s.
 Definition enrich_on_copy : bool := %s.
 Definition sem_includes_sweep : bool := %s.
+Definition required_in_node_order : bool := %s.
+Definition two_number_list_is_range : bool := %s.
 Definition identity_translation_failed := false.
 """ % (SRC_GB, SRC_SW, SRC_SID, cq_list(fields, cq_str), cq_str(plid_prefix), cq_str(refs["DataSource"]),
        cq_str(refs["DataOperation"]), cq_str(refs["DataProbe"]), cq_list(meta_keys, cq_str), cq_list(dep_keys, cq_str),
-       cq_bool(ctx_sorted), cq_bool(enrich_copy), cq_bool(sem_sweep))
-    return text, [p_gb, p_sw, p_sid, p_orch]
+       cq_bool(ctx_sorted), cq_bool(enrich_copy), cq_bool(sem_sweep), cq_bool(node_order), cq_bool(two_range))
+    return text, [p_gb, p_sw, p_sid, p_orch, p_insp, p_npp]
